@@ -1,6 +1,8 @@
 import NflowsModel.Lemmas.ChangeOfVar
 import NflowsModel.Lemmas.Gaussian
 import Mathlib.Analysis.Calculus.Deriv.Comp
+import Mathlib.Analysis.Calculus.FDeriv.Comp
+import Mathlib.LinearAlgebra.Determinant
 import Mathlib.Analysis.Calculus.Deriv.Add
 import Mathlib.Analysis.SpecialFunctions.Trigonometric.DerivHyp
 /-!
@@ -78,6 +80,51 @@ theorem prog_ld_cons (a : Diffeo1) (rest : List Diffeo1) (x : ℝ) :
 /-- base: the diagonal normal (standard normal = μ 0, log σ 0) is normalised for every dimension -/
 theorem base_normalised {D : ℕ} (μ ls : Fin D → ℝ) : ∫ x : Fin D → ℝ, Real.exp (Gaussian.diagNormalLogp μ ls x) = 1 :=
   Gaussian.diagNormal_normalised μ ls
+
+/-- a library transform on ℝⁿ as the theorem needs it: a bijection with Fréchet derivative whose |det| is `exp` of the
+    log-abs-det it returns (coupling, autoregressive, linear, permutation, element-wise layers: C01) -/
+structure DiffeoN (n : ℕ) where
+  T : (Fin n → ℝ) → (Fin n → ℝ)
+  T' : (Fin n → ℝ) → ((Fin n → ℝ) →L[ℝ] (Fin n → ℝ))
+  ld : (Fin n → ℝ) → ℝ
+  bij : Function.Bijective T
+  deriv : ∀ x, HasFDerivAt T (T' x) x
+  ld_eq : ∀ x, |(T' x).det| = Real.exp (ld x)
+
+/-- `CompositeTransform` in n dimensions: chain rule, multiplicativity of the determinant, log-abs-dets add -/
+def DiffeoN.comp {n : ℕ} (a b : DiffeoN n) : DiffeoN n where
+  T := b.T ∘ a.T
+  T' := fun x => (b.T' (a.T x)).comp (a.T' x)
+  ld := fun x => a.ld x + b.ld (a.T x)
+  bij := b.bij.comp a.bij
+  deriv := fun x => (b.deriv (a.T x)).comp x (a.deriv x)
+  ld_eq := by
+    intro x
+    have h : ((b.T' (a.T x)).comp (a.T' x)).det = (b.T' (a.T x)).det * (a.T' x).det := by
+      simp only [ContinuousLinearMap.det]
+      have : ((b.T' (a.T x)).comp (a.T' x) : (Fin n → ℝ) →ₗ[ℝ] (Fin n → ℝ))
+          = (b.T' (a.T x) : (Fin n → ℝ) →ₗ[ℝ] (Fin n → ℝ)).comp (a.T' x : (Fin n → ℝ) →ₗ[ℝ] (Fin n → ℝ)) := rfl
+      rw [this, LinearMap.det_comp]
+    rw [h, abs_mul, a.ld_eq x, b.ld_eq (a.T x), ← Real.exp_add, add_comm]
+
+def DiffeoN.id (n : ℕ) : DiffeoN n where
+  T := fun x => x
+  T' := fun _ => ContinuousLinearMap.id ℝ _
+  ld := fun _ => 0
+  bij := Function.bijective_id
+  deriv := fun x => hasFDerivAt_id x
+  ld_eq := by intro x; simp [ContinuousLinearMap.det]
+
+/-- a program of n-dimensional parts, in the order given -/
+def progN {n : ℕ} : List (DiffeoN n) → DiffeoN n
+  | [] => DiffeoN.id n
+  | a :: rest => a.comp (progN rest)
+
+/-- **Every composition of n-D library transforms with a normalised base is a normalised density** (any nesting depth,
+    any number of parts — not only those that fit a quadrature grid) -/
+theorem flow_normalised_progN {n : ℕ} (parts : List (DiffeoN n)) (p : (Fin n → ℝ) → ℝ) (hp : ∫ z, p z = 1) :
+    ∫ x, p ((progN parts).T x) * Real.exp ((progN parts).ld x) = 1 :=
+  flow_normalised_nd _ _ _ p (progN parts).bij (progN parts).deriv (progN parts).ld_eq hp
 
 /-- `LogTanh`: with the constructor's `beta = exp((tanh c - alpha log c) / alpha)` the logarithmic tail
     `alpha * log(beta * x)` joins the `tanh` part continuously at the cut point `c` (so the transform is a bijection of
